@@ -94,7 +94,17 @@ class NodeMonitor(object):
         self.problems = []
         self.nodes_typed = 0
         self.created = 0
-        self.mgrs = {}
+        self.mgrs = {}        # id(mgr) -> weak reference
+        self.tkeys = {}       # id(mgr) -> keys of self.types
+
+    def forget(self, mid):
+        """The manager is gone: drop its shadow tables (long workloads
+        create thousands of environments)."""
+        self.shadow.pop(mid, None)
+        self.byid.pop(mid, None)
+        self.mgrs.pop(mid, None)
+        for k in self.tkeys.pop(mid, ()):
+            self.types.pop(k, None)
 
     def install(self):
         if 'create_node' in _installed:
@@ -122,7 +132,13 @@ class NodeMonitor(object):
     def observe(self, mgr, node_type, args, payload, n):
         self.created += 1
         mid = id(mgr)
-        self.mgrs[mid] = mgr
+        if mid not in self.mgrs:
+            import weakref
+            try:
+                self.mgrs[mid] = weakref.ref(
+                    mgr, lambda _r, mid=mid: self.forget(mid))
+            except TypeError:
+                self.mgrs[mid] = mgr
         # ---- C04: shadow hash-consing
         key = (node_type, tuple(id(a) for a in args), _canon_payload(payload))
         sh = self.shadow.setdefault(mid, {})
@@ -159,6 +175,7 @@ class NodeMonitor(object):
         except B.Undescribable:
             return
         self.types[tk] = t
+        self.tkeys.setdefault(mid, []).append(tk)
         self.nodes_typed += 1
         try:
             pt = B.from_pytype(mgr.env.stc.get_type(n))
